@@ -59,6 +59,8 @@ class ASTListener(ModelicaListener):
         self.eq_comment = None  # type: str
         self.sym_count = 0  # type: int
         self.in_extends_clause = False
+        # (comp_clause, symbol_node) of the declarations around a redeclared component
+        self.clause1_stack = []
 
     @property
     def class_node(self):
@@ -603,6 +605,9 @@ class ASTListener(ModelicaListener):
         self.comp_clause = self.ast[ctx]
 
     def enterComponent_clause1(self, ctx: ModelicaParser.Component_clause1Context):
+        # A component redeclared inside a modification is not an element of the
+        # class, and must not disturb the declaration that is being modified.
+        self.clause1_stack.append((self.comp_clause, self.symbol_node))
         prefixes = [c.getText() for c in ctx.type_prefix().getChildren()]
         self.ast[ctx] = ast.ComponentClause(
             prefixes=prefixes,
@@ -647,6 +652,7 @@ class ASTListener(ModelicaListener):
             s.dimensions = list(s.dimensions)
             s.prefixes = list(s.prefixes)
             s.type = copy.deepcopy(clause.type)
+        self.comp_clause, self.symbol_node = self.clause1_stack.pop()
 
     def enterComponent_declaration(self, ctx: ModelicaParser.Component_declarationContext):
         sym = ast.Symbol(order=self.sym_count)
@@ -690,7 +696,7 @@ class ASTListener(ModelicaListener):
         sym.type = self.comp_clause.type
 
         # Declarations can also occur in extends clauses, in which case we do not have to add it to the class's symbols.
-        if not self.in_extends_clause:
+        if not self.in_extends_clause and not self.clause1_stack:
             if sym.name in self.class_node.symbols:
                 raise IOError(sym.name, "already defined")
             self.class_node.symbols[sym.name] = sym
